@@ -47,6 +47,53 @@ def h_tokenize_roundtrip(env, N):
     env.goal('list_round_trip', b_and(b_not(lst.raised), lst.value is not None and b_and(arr_eq(lst.value.gs[1], g), eq(lst.value.ps[1], p))))
 
 
+def h_describe_after_update(env, N, how):
+    """tokens / printed text / weight of one list object are asked for, the list is changed in place (rotated, masked
+    rotation, fields edited), and they are asked for again: the second answers describe the operators as they are now"""
+    M = Mods(env)
+    gs = env.bits('gs', (2, 2 * N))
+    ps = env.phases('ps', (2,))
+    lst = M.pa.PauliList(gs.copy(), ps.copy())
+    first = env.run(lambda: (lst.tokenize(), repr(lst) if N == 1 else None, lst.weight()))
+    env.goal('first_no_exception', b_not(first.raised))
+    gg = env.bits('gen', (2 * N,))
+    if how == 'rotate':
+        up = env.run(lambda: lst.rotate_by(M.pa.Pauli(gg.copy(), 0)))
+        now = [ref.ref_rotate(gg, 0, gs[k], ps[k]) for k in range(2)]
+    elif how == 'masked_rotate':
+        up = env.run(lambda: lst.rotate_by(M.pa.Pauli(gg[:2].copy(), 0), np.array([True] + [False] * (N - 1))))
+        full = oarr(list(gg[:2]) + [0] * (2 * N - 2))
+        now = [ref.ref_rotate(full, 0, gs[k], ps[k]) for k in range(2)]
+    else:
+        def edit():
+            lst.ps[0] = (lst.ps[0] + 1) % 4
+            lst.gs[1, 0] = 1 - lst.gs[1, 0]
+        up = env.run(edit)
+        g1 = oarr(list(gs[1]))
+        g1[0] = 1 - gs[1][0]
+        now = [(gs[0], (ps[0] + 1) % 4), (g1, ps[1])]
+    env.goal('update_no_exception', b_not(up.raised))
+    second = env.run(lambda: lst.tokenize())
+    env.goal('second_tokenize_no_exception', b_not(second.raised))
+    if second.value is not None and tuple(np.shape(second.value)) == (2, N + 1):
+        ts = second.value
+        for k in range(2):
+            g, p = now[k]
+            for i in range(N):
+                x, z = g[2 * i], g[2 * i + 1]
+                want = ite(b_and(eq(x, 0), eq(z, 0)), 0, ite(b_and(eq(x, 1), eq(z, 0)), 1, ite(b_and(eq(x, 1), eq(z, 1)), 2, 3)))
+                env.goal('row%d_token[%d]_after_update' % (k, i), eq(ts[k][i], want))
+            env.goal('row%d_phase_token_after_update' % k, eq(ts[k][N], 4 + ite(eq(p, 0), 0, ite(eq(p, 2), 1, ite(eq(p, 1), 2, 3)))))
+    else:
+        env.goal('second_token_shape', False)
+    w = env.run(lambda: lst.weight())
+    if w.value is not None and np.shape(w.value) == (2,):
+        for k in range(2):
+            g, p = now[k]
+            cnt = sum((ite(b_or(eq(g[2 * i], 1), eq(g[2 * i + 1], 1)), 1, 0) for i in range(N)), 0)
+            env.goal('row%d_weight_after_update' % k, eq(w.value[k], cnt))
+
+
 def h_repr_roundtrip(env, N):
     M = Mods(env)
     g = env.bits('g', (2 * N,))
@@ -296,6 +343,8 @@ def jobs(tier):
             J.append(dict(harness=('c20', 'h_parse_history'), params=dict(N=N, form=form), max_paths=30000, timeout_s=60))
         for form in ('varargs', 'list', 'tuple', 'generator', 'generator1', 'generator_of_pauli', 'list_of_pauli', 'nparray', 'dicts', 'paulilist'):
             J.append(dict(harness=('c20', 'h_paulis_containers'), params=dict(N=N, form=form), max_paths=30000, timeout_s=60))
+        for how in ('rotate', 'masked_rotate', 'edit'):
+            J.append(dict(harness=('c20', 'h_describe_after_update'), params=dict(N=N, how=how), max_paths=30000, timeout_s=120))
         for kind in ('Pauli', 'PauliList'):
             J.append(dict(harness=('c20', 'h_phase_arith'), params=dict(N=N, kind=kind)))
         for name in ('as_list_weight', 'list_weight', 'row_weight', 'neg_weight', 'tokenize', 'getitem'):     # read-only accessors leave the operator as described
